@@ -2,7 +2,7 @@
    Property theorems that do not depend on generated code: they quantify over
    ALL tables / specs accepted by the decidable well-formedness tests; the
    tables regenerated from lcapy/synthesis.py are plugged in by Gen/C19_gen.v. *)
-Require Import LT.FieldSec LT.PolyQ LT.RatfunCF LT.SynthNet LT.SynthCF LT.SynthPat LT.SynthLadder.
+Require Import LT.FieldSec LT.PolyQ LT.RatfunCF LT.SynthNet LT.SynthCF LT.SynthPat LT.SynthLadder LT.SynthTerm.
 From Coq Require Import String.
 Local Open Scope F_scope.
 
@@ -70,6 +70,33 @@ Proof. exact Zrat_eval. Qed.
 Theorem C19_Zwfb_sound : forall (K : fld) (n : net K) x, Zwfb n x = true -> Zwf n x.
 Proof. exact Zwfb_sound. Qed.
 
+(* ---- termination of the Euclid loops: no refusal of the Cauer models is due to the fuel ---- *)
+(* continued_fraction_coeffs: above the degree-sum measure the result does not depend on the fuel
+   (a None is then a genuine PolynomialError step, not exhaustion) *)
+Theorem C19_cf_coeffs_fuel_irrelevant : forall (K : fld) f1 f2 (N D : list K), pzerob N = false -> pzerob D = false ->
+  (psize N + psize D < f1)%nat -> (psize N + psize D < f2)%nat -> cf_coeffs f1 N D = cf_coeffs f2 N D.
+Proof. exact cf_coeffs_fuel_irrelevant. Qed.
+(* continued_fraction_inverse_coeffs always terminates with a coefficient list *)
+Theorem C19_icf_run_terminates : forall (K : fld) f (N D : list K), pzerob N = false -> pzerob D = false ->
+  (4 * Nat.max (psize N) (psize D) + 1 < f)%nat -> exists qs, icf_run f N D = Some qs.
+Proof. exact icf_run_terminates. Qed.
+Theorem C19_icf_run_fuel_irrelevant : forall (K : fld) f1 f2 (N D : list K), pzerob N = false -> pzerob D = false ->
+  (4 * Nat.max (psize N) (psize D) + 1 < f1)%nat -> (4 * Nat.max (psize N) (psize D) + 1 < f2)%nat ->
+  icf_run f1 N D = icf_run f2 N D.
+Proof. exact icf_run_fuel_irrelevant. Qed.
+(* the Cauer model run with any larger fuel gives the same network / the same refusal *)
+Theorem C19_synth_cauer_fuel_independent : forall (K : fld) (sp : ladder) (N D : list K) fuel, (cf_fuel N D <= fuel)%nat ->
+  synth_cauer_fuel fuel sp N D = synth_cauer sp N D.
+Proof. exact synth_cauer_fuel_independent. Qed.
+Theorem C19_synth_cauer_icf_total : forall (K : fld) (sp : ladder) (N D : list K), pzerob N = false -> pzerob D = false ->
+  exists qs, icf_run (cf_fuel N D) (if l_src_inv sp then D else N) (if l_src_inv sp then N else D) = Some qs.
+Proof. exact synth_cauer_icf_total. Qed.
+
+Print Assumptions C19_cf_coeffs_fuel_irrelevant.
+Print Assumptions C19_icf_run_terminates.
+Print Assumptions C19_icf_run_fuel_irrelevant.
+Print Assumptions C19_synth_cauer_fuel_independent.
+Print Assumptions C19_synth_cauer_icf_total.
 Print Assumptions C19_cf_eval_coeffs.
 Print Assumptions C19_icf_eval_coeffs.
 Print Assumptions C19_cf_coeffs_ratfun.
